@@ -176,7 +176,7 @@ func diffStep(s mstep, e wev) string {
 
 func diffState(s mstep, e wev) string {
 	w := s.W
-	if w.Raw != e.St.Raw || w.Buf != e.St.Buf || w.N != e.St.N || w.Dirty != e.St.Dirty || w.Fseq != e.St.Fseq || w.Err != e.St.Err || w.Noflush != e.St.NoFlush {
+	if hooksOn && (w.Raw != e.St.Raw || w.Buf != e.St.Buf || w.N != e.St.N || w.Dirty != e.St.Dirty || w.Fseq != e.St.Fseq || w.Err != e.St.Err || w.Noflush != e.St.NoFlush) {
 		return fmt.Sprintf("struct: model {raw:%d buf:%d n:%d dirty:%v fseq:%d err:%v noflush:%v} real %+v", w.Raw, w.Buf, w.N, w.Dirty, w.Fseq, w.Err, w.Noflush, e.St)
 	}
 	return ""
